@@ -300,6 +300,10 @@ def run(chk, db):
     # process-wide resources: a descriptor closed twice is a write to state shared with every other thread
     from . import c17
     c17.fd_ownership(chk, db, 'S7')
+    # ... likewise the descriptor a UniqueHandle owns: closed exactly once, and release() hands it out still open (a number that is
+    # already closed is re-issued by the kernel to whichever thread opens next, and two unrelated objects then share one descriptor)
+    from . import c15
+    c15.unique_handle(chk, db, 'UH')
     # a failed first initialisation must not count: the value is constructed through Optional's assignment, whose exception
     # ordering (state flag only after the element exists) is the typestate rule O; and an initialisation that throws must reach
     # the caller instead of terminating every thread (NX on ThreadLocal)
